@@ -45,6 +45,24 @@ pub proof fn lemma_subseq_distinct(s: Seq<Job>, t: Seq<Job>, f: Seq<int>)
         assert(s[i] == t[f[i]] && s[j] == t[f[j]] && f[i] < f[j]);
     }
 }
+// s's jobs are distinct jobs of t (identity kept), in any order: an injective index map
+pub open spec fn is_inj_by(s: Seq<Job>, t: Seq<Job>, f: Seq<int>) -> bool {
+    &&& f.len() == s.len()
+    &&& forall|i: int| 0 <= i < s.len() ==> 0 <= #[trigger] f[i] < t.len() && s[i] == t[f[i]]
+    &&& forall|i: int, j: int| 0 <= i < j < s.len() ==> f[i] != f[j]
+}
+pub open spec fn ids_inj_by(s: Seq<Job>, t: Seq<Job>, f: Seq<int>) -> bool {
+    &&& f.len() == s.len()
+    &&& forall|i: int| 0 <= i < s.len() ==> 0 <= #[trigger] f[i] < t.len() && s[i].id == t[f[i]].id
+    &&& forall|i: int, j: int| 0 <= i < j < s.len() ==> f[i] != f[j]
+}
+pub open spec fn ids_sorted(js: Seq<Job>) -> bool { forall|i: int, j: int| 0 <= i < j < js.len() ==> js[i].id < js[j].id }
+pub open spec fn same_ids(a: Seq<Job>, b: Seq<Job>) -> bool { a.len() == b.len() && forall|i: int| #![trigger a[i]] #![trigger b[i]] 0 <= i < a.len() ==> a[i].id == b[i].id }
+// a job `wait` is done with: all its tasks were awaited to completion, or it reported Stopped
+pub open spec fn awaited(j: Job) -> bool { j.tasks@.len() == 0 || j.state is Stopped }
+pub assume_specification<T, U, F: FnOnce(T) -> U> [std::option::Option::<T>::map_or] (o: Option<T>, d: U, f: F) -> (r: U)
+    requires o is Some ==> f.requires((o->0,)),
+    ensures o is None ==> r == d, o is Some ==> f.ensures((o->0,), r);
 impl Job {
     // polling a job: may drain its tasks and mark it Done; id and annotation are never touched
     #[verifier::external_body]
@@ -52,4 +70,101 @@ impl Job {
         ensures final(self).id == old(self).id, final(self).annotation == old(self).annotation,
             (r is Ok && r->Ok_0 is Some) ==> final(self).state is Done && final(self).tasks@.len() == 0,
     { unimplemented!() }
+    // Job::wait (jobs.rs): awaits the tasks back to front, popping each completed one; returns Ok once none is left (state Done)
+    // or as soon as one reports Stopped (state Stopped); `?` on a task error.  id and annotation are never touched.
+    #[verifier::external_body]
+    pub fn wait(&mut self) -> (r: Result<ExecutionResult, error::Error>)
+        ensures final(self).id == old(self).id, final(self).annotation == old(self).annotation,
+            r is Ok ==> (final(self).tasks@.len() == 0 && final(self).state is Done) || final(self).state is Stopped,
+    { unimplemented!() }
+}
+// ---- proof library for the table operations (Seq::remove / swap_remove keep an injective map injective; invariants depend on ids only)
+pub proof fn lemma_inv_depends_on_ids_only() { }
+pub proof fn lemma_same_ids_inv(a: Seq<Job>, b: Seq<Job>)
+    requires same_ids(a, b), table_inv(b),
+    ensures table_inv(a),
+{
+    assert forall|i: int, j: int| 0 <= i < j < a.len() implies (a[i].id != a[j].id && (ids_sorted(b) ==> a[i].id < a[j].id)) by {
+        assert(a[i].id == b[i].id && a[j].id == b[j].id);
+    }
+}
+pub proof fn lemma_same_ids_map(a: Seq<Job>, b: Seq<Job>, t: Seq<Job>, f: Seq<int>)
+    requires a.len() == b.len(), forall|k: int| 0 <= k < a.len() ==> (#[trigger] b[k]).id == a[k].id, ids_inj_by(a, t, f),
+    ensures ids_inj_by(b, t, f), same_ids(b, a),
+{
+    assert forall|k: int| 0 <= k < b.len() implies 0 <= #[trigger] f[k] < t.len() && b[k].id == t[f[k]].id by { assert(b[k].id == a[k].id); }
+}
+pub proof fn lemma_remove_inj(before: Seq<Job>, after: Seq<Job>, t: Seq<Job>, f0: Seq<int>, f1: Seq<int>, i: int)
+    requires 0 <= i < before.len(), after =~= before.remove(i), is_inj_by(before, t, f0), f1 == f0.remove(i), table_inv(t) ==> table_inv(before),
+    ensures is_inj_by(after, t, f1), table_inv(t) ==> table_inv(after),
+{
+    assert forall|a: int| 0 <= a < after.len() implies 0 <= #[trigger] f1[a] < t.len() && after[a] == t[f1[a]] by {
+        if a < i { assert(f1[a] == f0[a]); } else { assert(f1[a] == f0[a + 1]); }
+    }
+    assert forall|a: int, b: int| 0 <= a < b < after.len() implies f1[a] != f1[b] by {
+        let a2 = if a < i { a } else { a + 1 }; let b2 = if b < i { b } else { b + 1 };
+        assert(f1[a] == f0[a2] && f1[b] == f0[b2] && a2 < b2);
+    }
+    if table_inv(t) { lemma_remove_keeps_inv(before, after, i); }
+}
+pub proof fn lemma_remove_keeps_inv(before: Seq<Job>, after: Seq<Job>, i: int)
+    requires 0 <= i < before.len(), after =~= before.remove(i), table_inv(before),
+    ensures table_inv(after),
+{
+    assert forall|a: int, b: int| 0 <= a < b < after.len() implies (after[a].id != after[b].id && (ids_sorted(before) ==> after[a].id < after[b].id)) by {
+        let a2 = if a < i { a } else { a + 1 }; let b2 = if b < i { b } else { b + 1 };
+        assert(after[a] == before[a2] && after[b] == before[b2] && a2 < b2);
+    }
+}
+pub proof fn lemma_remove_ids_inj(before: Seq<Job>, after: Seq<Job>, t: Seq<Job>, f0: Seq<int>, f1: Seq<int>, i: int)
+    requires 0 <= i < before.len(), after =~= before.remove(i), ids_inj_by(before, t, f0), f1 == f0.remove(i), table_inv(t) ==> table_inv(before),
+    ensures ids_inj_by(after, t, f1), table_inv(t) ==> table_inv(after),
+{
+    assert forall|a: int| 0 <= a < after.len() implies 0 <= #[trigger] f1[a] < t.len() && after[a].id == t[f1[a]].id by {
+        if a < i { assert(f1[a] == f0[a]); } else { assert(f1[a] == f0[a + 1]); }
+    }
+    assert forall|a: int, b: int| 0 <= a < b < after.len() implies f1[a] != f1[b] by {
+        let a2 = if a < i { a } else { a + 1 }; let b2 = if b < i { b } else { b + 1 };
+        assert(f1[a] == f0[a2] && f1[b] == f0[b2] && a2 < b2);
+    }
+    if table_inv(t) { lemma_remove_keeps_inv(before, after, i); }
+}
+// Vec::swap_remove(i): element i is replaced by the last one, the last slot is dropped
+pub proof fn lemma_swap_remove_keeps_distinct(before: Seq<Job>, after: Seq<Job>, i: int)
+    requires 0 <= i < before.len(), after =~= before.update(i, before.last()).drop_last(), ids_distinct(before),
+    ensures ids_distinct(after),
+{
+    assert forall|a: int, b: int| 0 <= a < b < after.len() implies after[a].id != after[b].id by {
+        let a2 = if a == i { before.len() - 1 } else { a }; let b2 = if b == i { before.len() - 1 } else { b };
+        assert(after[a] == before[a2] && after[b] == before[b2] && a2 != b2);
+        if a2 < b2 { assert(before[a2].id != before[b2].id); } else { assert(before[b2].id != before[a2].id); }
+    }
+}
+pub proof fn lemma_swap_remove_inj(before: Seq<Job>, after: Seq<Job>, t: Seq<Job>, f0: Seq<int>, f1: Seq<int>, i: int)
+    requires 0 <= i < before.len(), after =~= before.update(i, before.last()).drop_last(), is_inj_by(before, t, f0),
+        f1 == f0.update(i, f0.last()).drop_last(),
+    ensures is_inj_by(after, t, f1),
+{
+    assert forall|a: int| 0 <= a < after.len() implies 0 <= #[trigger] f1[a] < t.len() && after[a] == t[f1[a]] by {
+        if a == i { assert(f1[a] == f0[f0.len() - 1]); } else { assert(f1[a] == f0[a]); }
+    }
+    assert forall|a: int, b: int| 0 <= a < b < after.len() implies f1[a] != f1[b] by {
+        let a2 = if a == i { before.len() - 1 } else { a }; let b2 = if b == i { before.len() - 1 } else { b };
+        assert(f1[a] == f0[a2] && f1[b] == f0[b2] && a2 != b2);
+        if a2 < b2 { assert(f0[a2] != f0[b2]); } else { assert(f0[b2] != f0[a2]); }
+    }
+}
+pub proof fn lemma_swap_remove_ids_inj(before: Seq<Job>, after: Seq<Job>, t: Seq<Job>, f0: Seq<int>, f1: Seq<int>, i: int)
+    requires 0 <= i < before.len(), after =~= before.update(i, before.last()).drop_last(), ids_inj_by(before, t, f0),
+        f1 == f0.update(i, f0.last()).drop_last(),
+    ensures ids_inj_by(after, t, f1),
+{
+    assert forall|a: int| 0 <= a < after.len() implies 0 <= #[trigger] f1[a] < t.len() && after[a].id == t[f1[a]].id by {
+        if a == i { assert(f1[a] == f0[f0.len() - 1]); } else { assert(f1[a] == f0[a]); }
+    }
+    assert forall|a: int, b: int| 0 <= a < b < after.len() implies f1[a] != f1[b] by {
+        let a2 = if a == i { before.len() - 1 } else { a }; let b2 = if b == i { before.len() - 1 } else { b };
+        assert(f1[a] == f0[a2] && f1[b] == f0[b2] && a2 != b2);
+        if a2 < b2 { assert(f0[a2] != f0[b2]); } else { assert(f0[b2] != f0[a2]); }
+    }
 }
